@@ -52,7 +52,7 @@ MANIFEST = dict(
               "check on real temporary directories (state-based) with fault enumeration (every choice of one missing listed file); "
               "negation witness + matcher for the recorded finding",
 )
-PROP_FILES = ["HtmlVerif/Props/C12.lean", "HtmlVerif/Props/ConstsDeps.lean"]
+PROP_FILES = ["HtmlVerif/Props/C12.lean", "HtmlVerif/Props/ConstsDeps.lean", "HtmlVerif/Props/SrcC12.lean"]
 
 V = fsops.VROOT
 
@@ -373,12 +373,17 @@ def gen_urls(ck, tier):
     info["script"][0] += [("data_x", "1"), ("data-x", "2"), ("src_", "z")]
     lines.append((f"as_html_tags {edepinfo(info)} F [ ] N T", True, "as_html_tags"))
     # random
+    extra_files = gen.EXTRA + ["é " + w for w in gen.EXTRA] + [w + " é" for w in gen.EXTRA]   # a new literal as a file name, as a suffix, as a prefix
     for _ in range(ck.budget(300, 20000)):
         src = rng.choice(all_sources())
-        info = mk_dep(rng.choice(DEP_NAMES + DEP_NAMES_SPECIAL), rng.choice(VERSIONS), src,
-                      rng.sample(FILE_NAMES, rng.randint(0, 4)), rng.sample(FILE_NAMES, rng.randint(0, 3)),
+        info = mk_dep(rng.choice(DEP_NAMES + DEP_NAMES_SPECIAL + gen.EXTRA), rng.choice(VERSIONS), src,      # gen.EXTRA: literals the source has gained (DESIGN §14.4)
+                      rng.sample(FILE_NAMES + extra_files, rng.randint(0, 4)), rng.sample(FILE_NAMES + extra_files, rng.randint(0, 3)),
                       all_files=rng.random() < 0.3)
-        lp = rng.choice(lps)
+        for w in gen.EXTRA:      # a new literal as an attribute of an item
+            for it in info["script"] + info["stylesheet"]:
+                if rng.random() < 0.3 and w not in dict(it):
+                    it.append((w, "v"))
+        lp = rng.choice(lps + gen.EXTRA)
         iv = rng.random() < 0.5
         opn = rng.choice(["source_path_map", "as_dict", "as_html_tags"])
         if opn == "source_path_map":
@@ -962,6 +967,7 @@ def run(tier: str) -> int:
         if tag.startswith("save_html"):
             ck.holds_checked += 1
             py_oracle(ck, l, im)
+    ck.add_src(['HTMLDependency_source_path_map', 'HTMLDependency_as_dict', 'HTMLDependency_as_html_tags'])
     ck.correspond(holds=True)
     repeat_save_oracle(ck, ck.budget(12, 150))
     cov = clause_coverage(ck, lines)
